@@ -77,6 +77,9 @@ type World struct {
 	CopyModels bool `json:"copy_models,omitempty"`
 	// MapSeed seeds the map-iteration-order seam of instrumented builds.
 	MapSeed uint64 `json:"map_seed"`
+	// Env: environment variables (of those the code under test reads) set while the world executes; the references
+	// are computed without them - a result must not depend on them.
+	Env map[string]string `json:"env,omitempty"`
 }
 
 // Case is a world plus how it is executed.
